@@ -17,6 +17,7 @@ import (
 	"encoding/json"
 	"flag"
 	"fmt"
+	"math/big"
 	"os"
 	"path/filepath"
 	"strings"
@@ -123,6 +124,7 @@ func transferRuns(in transferInput, n int, id int) ([][]string, [][]bool) {
 // client transactions while blocks are being executed. Block execution must not depend on it.
 func noise(stop chan struct{}, done chan struct{}, ops []ledgerops.AbsOp) {
 	defer close(done)
+	defer func() { recover() }() // a foreign user that dies is not the replica's business
 	for k := 0; ; k++ {
 		w := ledgerops.NewWorld(900000 + k)
 		for _, o := range ops {
@@ -149,15 +151,23 @@ func mixedRuns(ops []ledgerops.AbsOp, n int, id int) [][]string {
 			}
 			go noise(stop, done, rev)
 		}
-		w := ledgerops.NewWorld(id)
-		warm(w.St, r, nil)
 		ds := []string{}
-		for _, o := range ops {
-			d, _ := digest(w.Step(nil, o, ledgerops.Amounts[o.V%3], ""))
+		func() {
+			// a replica whose execution panics has produced a different outcome than one that does not
+			defer func() {
+				if e := recover(); e != nil {
+					ds = append(ds, fmt.Sprintf("PANIC: %v", e))
+				}
+			}()
+			w := ledgerops.NewWorld(id)
+			warm(w.St, r, nil)
+			for _, o := range ops {
+				d, _ := digest(w.Step(nil, o, ledgerops.Amounts[o.V%3], ""))
+				ds = append(ds, d)
+			}
+			d, _ := digest(w.Step(nil, ledgerops.AbsOp{Op: "MatureRewards"}, "", ""))
 			ds = append(ds, d)
-		}
-		d, _ := digest(w.Step(nil, ledgerops.AbsOp{Op: "MatureRewards"}, "", ""))
-		ds = append(ds, d)
+		}()
 		runs = append(runs, ds)
 		if stop != nil {
 			close(stop)
@@ -224,6 +234,78 @@ func destroyedThenFundedRuns(n int, id int) [][]string {
 	return runs
 }
 
+// scratchMemoryRuns: a contract that reads memory it never wrote (MLOAD far above anything it
+// stored) and keeps what it read in storage, executed after other frames of the same process
+// filled their memory with non-zero bytes. Fresh frame memory is all zero, so every replica must
+// store zeros - whatever the process executed before.
+func scratchMemoryRuns(n int, id int) [][]string {
+	initCode := func(rt []byte) string {
+		c := append([]byte{0x60, byte(len(rt)), 0x60, 0x0c, 0x60, 0x00, 0x39, 0x60, byte(len(rt)), 0x60, 0x00, 0xf3}, rt...)
+		return "0x" + hex.EncodeToString(c)
+	}
+	// writer: CALLDATACOPY(0, 0, CALLDATASIZE); STOP
+	writer := []byte{0x36, 0x60, 0x00, 0x60, 0x00, 0x37, 0x00}
+	// reader: for off in {0x80, 0x100, 0x400, 0x1000}: SSTORE(off, MLOAD(off)); LOG0(0x2000, 0x40); STOP
+	reader := []byte{}
+	for _, off := range []int{0x80, 0x100, 0x400, 0x1000} {
+		reader = append(reader, 0x61, byte(off>>8), byte(off), 0x51, 0x61, byte(off>>8), byte(off), 0x55)
+	}
+	reader = append(reader, 0x60, 0x40, 0x61, 0x20, 0x00, 0xa0, 0x00)
+	// what the earlier frames leave in their memory differs from replica to replica
+	fillOf := func(r int) string { return "0x" + strings.Repeat(fmt.Sprintf("%02x", 0x11*(r%7+1)), 0x1800) }
+	cd := func(abi string) string {
+		d, _ := json.Marshal(types.ContractData{GasLimit: "3000000", TransferValue: "0", AbiData: abi})
+		return string(d)
+	}
+	runs := [][]string{}
+	for r := 0; r < n; r++ {
+		ds := []string{}
+		func() {
+			defer func() {
+				if e := recover(); e != nil {
+					ds = append(ds, fmt.Sprintf("PANIC: %v", e))
+				}
+			}()
+			st := execdrv.FreshState()
+			warm(st, r, nil)
+			src := execdrv.Funded[r%3]
+			_ = src
+			t1 := execdrv.NewTx(types.TransactionTypeContract, execdrv.Funded[0], "", cd(initCode(writer)), "", 1, fmt.Sprintf("c01-sm-%d-w", id))
+			t2 := execdrv.NewTx(types.TransactionTypeContract, execdrv.Funded[1], "", cd(initCode(reader)), "", 2, fmt.Sprintf("c01-sm-%d-r", id))
+			res := execdrv.Execute(st, 1, []*types.Transaction{t1, t2})
+			d, _ := digest(res)
+			ds = append(ds, d)
+			if len(res.Receipts) != 2 {
+				ds = append(ds, fmt.Sprintf("deploys:%d", len(res.Receipts)))
+				return
+			}
+			wa, ra := res.Receipts[0].ContractAddress.GetHexString(), res.Receipts[1].ContractAddress.GetHexString()
+			// several writer frames (more in later replicas), then the reader, in one block; then once more
+			list := []*types.Transaction{}
+			for k := 0; k < 1+r%4; k++ {
+				list = append(list, execdrv.NewTx(types.TransactionTypeContract, execdrv.Funded[k%3], wa, cd(fillOf(r)), "", uint64(10+k), fmt.Sprintf("c01-sm-%d-f%d", id, k)))
+			}
+			list = append(list, execdrv.NewTx(types.TransactionTypeContract, execdrv.Funded[2], ra, cd("0x"), "", 20, fmt.Sprintf("c01-sm-%d-x", id)))
+			// the digest must not depend on how many writer calls preceded: compare only the reader's effect
+			res2 := execdrv.Execute(st, 2, list)
+			slots := []string{}
+			for _, off := range []int{0x80, 0x100, 0x400, 0x1000} {
+				slots = append(slots, hex.EncodeToString(st.GetData(common.HexToAddress(ra), common.BigToHash(big.NewInt(int64(off))).Bytes())))
+			}
+			logs := 0
+			for _, rc := range res2.Receipts {
+				for _, l := range rc.Logs {
+					logs++
+					slots = append(slots, hex.EncodeToString(l.Data))
+				}
+			}
+			ds = append(ds, fmt.Sprintf("reader-slots:%v logs:%d", slots, logs))
+		}()
+		runs = append(runs, ds)
+	}
+	return runs
+}
+
 // castThenVerify: a proposer casts a block whose execution hits the wall-clock cut-off
 // (situation "casting", 3 s); the transaction list it reports, executed by a verifier on a fresh
 // state of the same parent, must give the proposer's state root, receipts and evicted list.
@@ -254,6 +336,7 @@ func main() {
 	shared := flag.Int("shared-reward", 0, "runs of the shared-reward-account input (0: skip)")
 	cast := flag.Bool("cast", false, "run the casting cut-off scenario (takes > 3 s)")
 	destroyed := flag.Int("destroyed-funded", 0, "runs of the destroyed-then-funded input (0: skip)")
+	scratchMem := flag.Int("scratch-memory", 0, "runs of the uninitialised-memory reader input (0: skip)")
 	flag.Parse()
 	if *scratch == "" {
 		vutil.Fatalf("--scratch required")
@@ -330,6 +413,13 @@ func main() {
 			"runs": runs, "transferOk": []bool{}})
 		nIn++
 		nRuns += *destroyed
+	}
+	if *scratchMem > 0 {
+		runs := scratchMemoryRuns(*scratchMem, 13)
+		tr.Emit(map[string]interface{}{"event": "Replicas", "class": "uninitialised-memory-reader", "bal": 0, "targets": []target{},
+			"runs": runs, "transferOk": []bool{}})
+		nIn++
+		nRuns += *scratchMem
 	}
 	if *cast {
 		r := castThenVerify(9)
